@@ -38,6 +38,10 @@ enum Op {
     DisableStoppers,
     DisableAll,
     EnterSubshell(bool, bool),
+    /// the shell's signal handling reports a delivery of the signal (`TrapSet::catch_signal`)
+    Catch(u8),
+    /// the shell asks whether the signal's action has to run (`take_signal_if_caught`)
+    Take(u8),
 }
 
 fn signum(n: i32) -> signal::Number {
@@ -73,6 +77,8 @@ struct MSig {
     internal: D,
     /// still "ignored since start-up" (cannot be trapped or reset without override)
     inherited_ignore: bool,
+    /// a delivery has been reported since the current action was set and not yet taken
+    delivered: bool,
 }
 
 impl MSig {
@@ -102,7 +108,7 @@ impl Model {
         let mut sigs = BTreeMap::new();
         for s in ALL.iter().chain(["STOP"].iter()) {
             let i = initial.get(s).copied().unwrap_or(D::Default);
-            sigs.insert(*s, MSig { initial: i, user: None, internal: D::Default, inherited_ignore: i == D::Ignore });
+            sigs.insert(*s, MSig { initial: i, user: None, internal: D::Default, inherited_ignore: i == D::Ignore, delivered: false });
         }
         Model { sigs }
     }
@@ -116,6 +122,8 @@ impl Model {
         }
         m.user = Some(a);
         m.inherited_ignore = false;
+        // a delivery that preceded the new action is not a delivery of the new trap
+        m.delivered = false;
         Ok(())
     }
     fn internal(&mut self, s: &'static str, d: D) {
@@ -125,6 +133,7 @@ impl Model {
         for (name, m) in self.sigs.iter_mut() {
             if m.user == Some(Act3::Command) {
                 m.user = Some(Act3::Default);
+                m.delivered = false;
             }
             if *name == "CHLD" {
                 continue;
@@ -231,6 +240,29 @@ fn apply(r: &mut Real, m: &mut Model, op: &Op, sigs: &[&'static str]) -> Option<
             r.traps.enter_subshell(sys, a, b).now_or_never().expect("enter_subshell blocked");
             m.enter_subshell(a, b);
         }
+        Op::Catch(i) => {
+            let name = sigs[i as usize];
+            // the shell only sees deliveries of signals it catches
+            if m.sigs[name].installed() == D::Catch {
+                r.traps.catch_signal(signum(signo(name)));
+                m.sigs.get_mut(name).unwrap().delivered = true;
+            }
+        }
+        Op::Take(i) => {
+            let name = sigs[i as usize];
+            let got = r.traps.take_signal_if_caught(signum(signo(name))).map(|st| matches!(st.action, Action::Command(_)));
+            let ms = m.sigs.get_mut(name).unwrap();
+            let want = ms.delivered && ms.user == Some(Act3::Command);
+            ms.delivered = false;
+            // the command action runs iff a delivery was reported since it was set (exactly once)
+            if got.unwrap_or(false) != want {
+                return Some(format!(
+                    "take_signal_if_caught(SIG{name}) says a command action {} run, but {}",
+                    if got == Some(true) { "has to" } else { "need not" },
+                    if want { "the signal was delivered after the trap was set and its action has not run yet" } else { "no delivery has been reported since the trap was set" }
+                ));
+            }
+        }
     }
     // read back what is installed in the simulated process
     let st = r.state.borrow();
@@ -303,6 +335,8 @@ fn ops_for(nsigs: usize) -> Vec<Op> {
             }
         }
         v.push(Op::Peek(i));
+        v.push(Op::Catch(i));
+        v.push(Op::Take(i));
     }
     v.extend([
         Op::EnableChld,
@@ -678,7 +712,7 @@ pub fn run(tier: Tier) -> i32 {
         "part_b_syscall_injection_points": points,
         "part_b_double_deliveries_that_coalesced": coalesced,
         "part_b_executions_in_which_the_signal_interrupted_wait": INTERRUPTED_WAITS.load(Relaxed),
-        "explanation": "(a) BFS by history replay over the real TrapSet bound to a real Concurrent<VirtualSystem>: ops = set_action(Default|Ignore|Command, override f/t) per signal, peek_state, enable/disable each internal disposition group, enter_subshell with each option pair; per signal class {INT,QUIT,TERM,CHLD,TSTP,USR1,KILL,STOP} x initial disposition {default, ignored} and 4 signal pairs; after every op the disposition installed in the simulated process and its signal mask are read back and compared with the reference merge max(internal, user) (caught <=> blocked), return values compared, states merged on (model, Debug of the trap set, installed dispositions). (b) 8 scripts with traps: the signal is raised on the shell at every simulated system call index k (and at pairs k1,k2); the markers outside the trap and the exit status must equal the undisturbed run, the trap must run exactly once per delivery (1..n for n coalescing deliveries). (c) interactive shells (-i) whose built-in (read, cat, a function reading) blocks on a pipe: SIGINT alone, SIGUSR1+SIGINT in either order at the same system call, and at consecutive calls, at every system call index; executions in which the built-in was interrupted must run the USR1 trap exactly once, discard the rest of the interrupted line only, and go on with the next lines",
+        "explanation": "(a) BFS by history replay over the real TrapSet bound to a real Concurrent<VirtualSystem>: ops = set_action(Default|Ignore|Command, override f/t) per signal, peek_state, catch_signal (a delivery is reported) and take_signal_if_caught (a command action has to run iff a delivery was reported since the action was set, exactly once), enable/disable each internal disposition group, enter_subshell with each option pair; per signal class {INT,QUIT,TERM,CHLD,TSTP,USR1,KILL,STOP} x initial disposition {default, ignored} and 4 signal pairs; after every op the disposition installed in the simulated process and its signal mask are read back and compared with the reference merge max(internal, user) (caught <=> blocked), return values compared, states merged on (model, Debug of the trap set, installed dispositions). (b) 8 scripts with traps: the signal is raised on the shell at every simulated system call index k (and at pairs k1,k2); the markers outside the trap and the exit status must equal the undisturbed run, the trap must run exactly once per delivery (1..n for n coalescing deliveries). (c) interactive shells (-i) whose built-in (read, cat, a function reading) blocks on a pipe: SIGINT alone, SIGUSR1+SIGINT in either order at the same system call, and at consecutive calls, at every system call index; executions in which the built-in was interrupted must run the USR1 trap exactly once, discard the rest of the interrupted line only, and go on with the next lines",
     });
     ctx.finish(cov, &["signals are injected at syscall boundaries of the simulator (complete because caught signals are blocked outside select)", "reference merge model trusted"])
 }
